@@ -422,6 +422,43 @@ def short_read_streams(mon, rec, rng, d, U):
             mon.expect.clear()
 
 
+def mixed_archives(mon, rec, rng, d, U):
+    """archives written with one positional array and keyword arrays (the positional one is stored as 'arr_0', after the others):
+    read without a key, the documented default entry 'arr_0' comes back - by name, from a stream, through the webdataset hook"""
+    for kind in ("npz", "npzc"):
+        save = np.savez_compressed if kind == "npzc" else np.savez
+        for j in range(3):
+            x = gen_array(rng, "npy")
+            others = {"aaa": gen_array(rng, "npy"), "zzz": np.arange(3.0)}
+            path = os.path.join(d, "mixed_%s_%d.npz" % (kind, j))
+            save(path, x, **others)
+            info = dict(kind=kind, shape=list(x.shape), stored_dtype=str(x.dtype), channels=1, entries=3, cast=None, access=["name", "stream", "forced"][j], key=None, name=os.path.basename(path))
+            try:
+                if j == 0:
+                    mon.register(path, expected=_contig(x), info=info)
+                    U.read_signal(path)
+                elif j == 1:
+                    f = io.BytesIO(open(path, "rb").read())
+                    mon.register(f, expected=_contig(x), info=info)
+                    U.read_signal(f, force_as="npz")
+                else:
+                    p2 = path[:-4] + ".data"
+                    shutil.copy(path, p2)
+                    mon.register(p2, expected=_contig(x), info=info)
+                    U.read_signal(p2, force_as="npz")
+            except Exception:
+                pass
+            k = "sample/mixed_%s_%d.npz" % (kind, j)
+            mon.expect[("wds", k)] = dict(expected=_contig(x), kind=kind)
+            try:
+                U.wds_read_signal(k, open(path, "rb").read())
+            except Exception:
+                pass
+            mon.expect.pop(("wds", k), None)
+            rec.count("archives_with_positional_and_keyword_entries")
+            mon.expect.clear()
+
+
 def rewritten_files(mon, rec, rng, d, U):
     """What read_signal returned is the caller's array: writing other data to the same path afterwards (with the container's own
     writer, or in place) does not change it.  Recordings of a few KiB and of more than a MiB."""
@@ -629,6 +666,7 @@ def run_case(case, rec, mon=None):
             mon.expect.clear()
             rewritten_files(mon, rec, rng, d, U)
             short_read_streams(mon, rec, rng, d, U)
+            mixed_archives(mon, rec, rng, d, U)
         else:
             hostile(mon, rec, rng, d, case["n"])
             rec.sample({"kind": "hostile", "n": case["n"]})
